@@ -1,0 +1,166 @@
+package evalfilter
+
+import (
+	"fmt"
+
+	"github.com/skx/evalfilter/v2/ast"
+)
+
+// Every construct of the language is parsed as an expression, but some of
+// them leave no value behind when they run: assignments (plain and
+// compound), `++` and `--`, if, while, foreach, switch, function
+// definitions and `local`.  Such a construct may only be used as a
+// statement.  Used where a value is needed - `a = b = 3;`, `y = x++;`,
+// `x += 1 + 2;` (which means `(x += 1) + 2`), `return (x = 1);` - it
+// compiles to code which takes from the stack values that were never put
+// there, and fails when it is run.  checkModes rejects such programs when
+// they are prepared.
+
+// valueless reports whether the given construct leaves no value behind.
+func valueless(node ast.Node) bool {
+	switch n := node.(type) {
+	case *ast.AssignStatement, *ast.PostfixExpression, *ast.IfExpression,
+		*ast.WhileStatement, *ast.ForeachStatement, *ast.SwitchExpression,
+		*ast.FunctionDefinition, *ast.LocalVariable:
+		return true
+	case *ast.InfixExpression:
+		return mutator(n.Operator)
+	}
+	return false
+}
+
+// mutator reports whether the operator is a compound assignment.
+func mutator(op string) bool {
+	return op == "+=" || op == "-=" || op == "*=" || op == "/="
+}
+
+// operand checks an expression which is used for its value.
+func operand(node ast.Node) error {
+	if valueless(node) {
+		return fmt.Errorf("%s has no value, it may only be used as a statement", node.String())
+	}
+	var parts []ast.Expression
+	switch n := node.(type) {
+	case *ast.PrefixExpression:
+		parts = []ast.Expression{n.Right}
+	case *ast.InfixExpression:
+		parts = []ast.Expression{n.Left, n.Right}
+	case *ast.TernaryExpression:
+		parts = []ast.Expression{n.Condition, n.IfTrue, n.IfFalse}
+	case *ast.ArrayLiteral:
+		parts = n.Elements
+	case *ast.HashLiteral:
+		for _, k := range n.Keys {
+			parts = append(parts, k, n.Pairs[k])
+		}
+	case *ast.IndexExpression:
+		parts = []ast.Expression{n.Left, n.Index}
+	case *ast.CallExpression:
+		parts = n.Arguments
+	}
+	for _, p := range parts {
+		if err := operand(p); err != nil {
+			return err
+		}
+	}
+	return nil
+}
+
+// statement checks an expression which is used as a statement.
+func statement(node ast.Node) error {
+	switch n := node.(type) {
+	case *ast.AssignStatement:
+		return operand(n.Value)
+	case *ast.InfixExpression:
+		if mutator(n.Operator) {
+			if err := operand(n.Left); err != nil {
+				return err
+			}
+			return operand(n.Right)
+		}
+	case *ast.IfExpression:
+		if err := operand(n.Condition); err != nil {
+			return err
+		}
+		if err := block(n.Consequence); err != nil {
+			return err
+		}
+		if n.Alternative != nil {
+			return block(n.Alternative)
+		}
+		return nil
+	case *ast.WhileStatement:
+		if err := operand(n.Condition); err != nil {
+			return err
+		}
+		return block(n.Body)
+	case *ast.ForeachStatement:
+		if err := operand(n.Value); err != nil {
+			return err
+		}
+		return block(n.Body)
+	case *ast.SwitchExpression:
+		if err := operand(n.Value); err != nil {
+			return err
+		}
+		for _, c := range n.Choices {
+			for _, e := range c.Expr {
+				if err := operand(e); err != nil {
+					return err
+				}
+			}
+			if err := block(c.Block); err != nil {
+				return err
+			}
+		}
+		return nil
+	case *ast.FunctionDefinition:
+		return block(n.Body)
+	case *ast.PostfixExpression, *ast.LocalVariable:
+		return nil
+	}
+	return operand(node)
+}
+
+// statements checks a sequence of statements.
+func statements(list []ast.Statement) error {
+	for i, s := range list {
+		switch n := s.(type) {
+		case *ast.ReturnStatement:
+			if err := operand(n.ReturnValue); err != nil {
+				return err
+			}
+		case *ast.ExpressionStatement:
+			if err := statement(n.Expression); err != nil {
+				return err
+			}
+			// `x++` reaches us as the two statements `x` and `++`:
+			// the second takes what the first left behind.
+			if _, ok := n.Expression.(*ast.PostfixExpression); ok {
+				paired := false
+				if i > 0 {
+					if prev, ok := list[i-1].(*ast.ExpressionStatement); ok {
+						_, paired = prev.Expression.(*ast.Identifier)
+					}
+				}
+				if !paired {
+					return fmt.Errorf("%s must follow the name of a variable", n.Expression.String())
+				}
+			}
+		}
+	}
+	return nil
+}
+
+// block checks the statements of a block.
+func block(b *ast.BlockStatement) error {
+	if b == nil {
+		return nil
+	}
+	return statements(b.Statements)
+}
+
+// checkModes checks a whole program.
+func checkModes(p *ast.Program) error {
+	return statements(p.Statements)
+}
